@@ -76,6 +76,14 @@ def solve_dump(rec, outcome, with_results=True, with_counters=True):
            "objective": None if rec.get("objective") is None else expr_dump(rec["objective"]), "sent": sent,
            "n_inner": len(rec["inner"]), "inner_status": [str(x.get("status")) for x in rec["inner"]],
            "solver": [str(x.get("solver")) for x in rec["inner"]]}
+    w = rec.get("wrapper")
+    task = getattr(w, "task", None)
+    if task is not None and hasattr(task, "calls"):
+        # MOSEK back-end (stand-in): the full sequence of Task calls with their arguments is part of the solver input
+        import json as _json
+        calls = [c for c in task.calls if c[0] not in ("set_Stream", "solutionsummary")]   # verbosity only, no model data
+        out["task_calls"] = len(calls)
+        out["task_calls_sha1"] = hashlib.sha1(_json.dumps(calls, default=str).encode()).hexdigest()
     if with_results:
         res = {"outcome": outcome[0], "value": None}
         if outcome[0] == "ok":
